@@ -16,6 +16,18 @@ func (in *Interp) foreign(fn *types.Func, recv Value, x *ast.CallExpr) []Value {
 	switch name {
 	case "errors.New", "fmt.Errorf", "github.com/pkg/errors.New", "github.com/pkg/errors.Errorf":
 		tag := ""
+		if name == "fmt.Errorf" && len(x.Args) > 0 {
+			// %w builds a wrapper (errors.Is / errors.Unwrap see through it): not modelled
+			if fr := in.fr(); fr != nil {
+				if tv, ok := fr.pkg.TypesInfo.Types[x.Args[0]]; ok && tv.Value != nil {
+					if strings.Contains(tv.Value.ExactString(), "%w") {
+						in.fail(x, "fmt.Errorf with a %%w verb")
+					}
+				} else if sv, ok := in.expr(x.Args[0]).(*StrVal); !ok || !sv.Known || strings.Contains(sv.S, "%w") {
+					in.fail(x, "fmt.Errorf with a format that is not a known string without %%w")
+				}
+			}
+		}
 		if fr := in.fr(); fr != nil && strings.HasPrefix(fr.fn, "init:") {
 			tag = fr.fn + "@" + fr.pkg.Fset.Position(x.Pos()).String() // a package-level sentinel
 		}
@@ -33,6 +45,25 @@ func (in *Interp) foreign(fn *types.Func, recv Value, x *ast.CallExpr) []Value {
 			return []Value{&ErrVal{NonNil: ev.NonNil, Cause: cause}}
 		}
 		return []Value{asErr(in.expr(x.Args[0]))}
+	case "errors.Is":
+		// true iff the chain err, Unwrap(err), … contains target. The chains this interpreter builds have at most two
+		// links that can be a sentinel: the error itself and what pkg/errors wrapped (its Cause); both nil: true.
+		ev, ok1 := asErr(in.expr(x.Args[0])).(*ErrVal)
+		tv, ok2 := asErr(in.expr(x.Args[1])).(*ErrVal)
+		if ok1 && ok2 && tv.Tag != "" && tv.Tag != "?" {
+			is := False
+			if c, ok := errTagConds(ev)[tv.Tag]; ok {
+				is = in.D.M.Or(is, c)
+			}
+			if c, ok := errCauseConds(ev)[tv.Tag]; ok {
+				is = in.D.M.Or(is, c)
+			}
+			is = in.D.M.And(is, tv.NonNil)
+			is = in.D.M.Or(is, in.D.M.And(in.D.M.Not(ev.NonNil), in.D.M.Not(tv.NonNil)))
+			return []Value{in.D.Bool(is)}
+		}
+		in.fail(x, "errors.Is with a target that is not a package-level sentinel")
+		return nil
 	case "github.com/pkg/errors.Cause":
 		if ev, ok := asErr(in.expr(x.Args[0])).(*ErrVal); ok {
 			tag := ev.Cause
@@ -419,6 +450,90 @@ func (in *Interp) foreign(fn *types.Func, recv Value, x *ast.CallExpr) []Value {
 		out := in.OpaqueBytes("KUnwrap", [][]Value{blk.Args, cts}, 8*n+1, "RFC 3394 unwrap / integrity bit")
 		bad := out[8*n].(*Bits).Bits()[0]
 		return []Value{&Slice{Back: &Backing{E: cellsOf(out[:8*n])}, Hi: 8 * n, Cap: 8 * n, Elem: types.Typ[types.Uint8]}, &ErrVal{NonNil: bad}}
+	case "(*sync.Once).Do":
+		// the function runs on the paths on which this Once has not fired yet
+		p, okp := recv.(*Ptr)
+		fv, okf := in.expr(x.Args[0]).(*FuncVal)
+		if !okp || !okf {
+			in.fail(x, "sync.Once.Do on %T with %T", recv, in.expr(x.Args[0]))
+		}
+		if in.onceDone == nil {
+			in.onceDone = map[*Cell]Node{}
+		}
+		done, seen := in.onceDone[p.To]
+		if !seen {
+			done = False
+		}
+		saved := in.live
+		need := in.D.M.And(saved, in.D.M.Not(done))
+		in.onceDone[p.To] = in.D.M.Or(done, saved)
+		if need != False {
+			in.live = need
+			in.D.Cond = need
+			if fv.Decl != nil {
+				in.callFunc(fv.Decl, nil, nil, nil)
+			} else if fv.Lit != nil {
+				in.callLit(fv.Lit, fv.Pkg, fv.Env, "func literal", nil)
+			} else {
+				in.fail(x, "sync.Once.Do function value")
+			}
+			in.live = saved
+			in.D.Cond = saved
+		}
+		return nil
+	case "sort.Search":
+		// the library's binary search, unrolled: i, j := 0, n; while i < j { h := (i+j)/2; if !f(h) { i = h+1 } else { j = h } }
+		// with i, j as symbolic integers and every step predicated on i < j
+		nv, ok := in.expr(x.Args[0]).(*Bits)
+		fv, ok2 := in.expr(x.Args[1]).(*FuncVal)
+		if !ok || !ok2 {
+			in.fail(x, "sort.Search arguments")
+		}
+		_, hiN := in.D.Range(nv.Bits(), nv.Signed)
+		if !hiN.IsInt64() || hiN.Int64() > 1<<20 {
+			in.fail(x, "sort.Search over an unbounded range")
+		}
+		steps := 1
+		for k := hiN.Int64(); k > 0; k >>= 1 {
+			steps++
+		}
+		w := nv.W
+		i := in.D.Const(0, w, true)
+		j := in.D.Resize(nv, w, true)
+		saved := in.live
+		for it := 0; it < steps; it++ {
+			c := in.D.Cmp(token.LSS, i, j)
+			lc := in.D.M.And(saved, c)
+			if lc == False {
+				break
+			}
+			h := in.D.Shift(token.SHR, in.D.AddSub(token.ADD, i, j), 1)
+			in.live = lc
+			in.D.Cond = lc
+			var res []Value
+			if fv.Decl != nil {
+				res = in.callFunc(fv.Decl, nil, nil, []Value{h})
+			} else if fv.Lit != nil {
+				res = in.callLit(fv.Lit, fv.Pkg, fv.Env, "func literal", []Value{h})
+			} else {
+				in.fail(x, "sort.Search predicate")
+			}
+			in.live = saved
+			in.D.Cond = saved
+			b, okb := res[0].(*Bits)
+			if !okb {
+				in.fail(x, "sort.Search predicate result")
+			}
+			t := b.Bits()[0]
+			one := in.D.Const(1, w, true)
+			ni := in.D.ITE(in.D.M.And(c, in.D.M.Not(t)), in.D.AddSub(token.ADD, h, one), i)
+			nj := in.D.ITE(in.D.M.And(c, t), h, j)
+			i, j = ni, nj
+		}
+		if in.D.M.And(saved, in.D.Cmp(token.LSS, i, j)) != False {
+			in.fail(x, "sort.Search did not converge within %d steps", steps)
+		}
+		return []Value{i}
 	case "crypto/cipher.NewCBCDecrypter", "crypto/cipher.NewCBCEncrypter":
 		args := in.args(x, sig)
 		blk, ok := args[0].(*Opaque)
